@@ -297,7 +297,9 @@ impl Player {
                 }
             }
             Policy::Capture => {
-                let c: Vec<Action> = cands.iter().cloned().filter(|a| s.trapped_animal_for_action(a).is_some()).collect();
+                // the preview is code under test: a panic in it must not take the harness down (it is reported by the
+                // C19 oracle at the same state, which previews every offered action under its own guard)
+                let c: Vec<Action> = cands.iter().cloned().filter(|a| crate::util::guard(|| s.trapped_animal_for_action(a)).map_or(false, |r| r.is_some())).collect();
                 if !c.is_empty() && rng.chance(3, 4) {
                     *rng.pick(&c)
                 } else {
